@@ -24,8 +24,8 @@ func init() {
 		Rule: "E1 over token sequences: every sequence up to the length bound over the token alphabet, rendered blank-separated and concatenated, is given to expr.NewExprMachine / leafref.NewLeafrefMachine and to a three-valued reference (XPath 1.0 tokenizer+parser with the section 3.7 rules, core-subset classifier; RFC 6020 path-arg recogniser); " +
 			"plus every single-token deletion, replacement and insertion (whole alphabet, every position) on a corpus of well-formed expressions and on all path-arg derivations of bounded size. UNSPECIFIED strings are counted and skipped. Non-trivial = the reference decides MUST_ACCEPT, or MUST_REJECT for a reason other than a lexical error in the first token.",
 		Bound: map[string]string{
-			"quick":    "expr: all sequences of <=3 tokens over 63 tokens (2 renderings) and <=4 over a 24-token structural sub-alphabet; corpus x single-token mutations. leafref: all sequences of <=5 over 23 tokens; all path-arg derivations with <=2 steps, <=1 predicate x single-token mutations",
-			"thorough": "expr: <=4 tokens over 63 tokens, <=5 over the structural sub-alphabet; leafref: <=6 over 23 tokens, <=8 over the 9 structural tokens; derivations with <=3 steps, <=2 predicates x single-token mutations",
+			"quick":    "expr: all sequences of <=3 tokens over 63 tokens (2 renderings) and <=4 over a 24-token structural sub-alphabet; corpus x single-token mutations. leafref: all sequences of <=5 over 20 tokens and <=4 over all 26; all path-arg derivations with <=2 steps, <=1 predicate x single-token mutations",
+			"thorough": "expr: <=4 tokens over 63 tokens, <=5 over the structural sub-alphabet; leafref: <=6 over 26 tokens, <=8 over the 9 structural tokens; derivations with <=3 steps, <=2 predicates x single-token mutations",
 		},
 		Assumptions: []string{
 			"prefix map knows only 'p'",
@@ -41,11 +41,14 @@ func mapFn(prefix string) (string, error) {
 		return "", nil
 	case "p":
 		return "urn:p", nil
+	case "xmlp", "XMLq":
+		// known to the prefix map, so that only the "identifier must not start with xml" rule can reject it
+		return "urn:x", nil
 	}
 	return "", fmt.Errorf("unknown import %s", prefix)
 }
 
-func knownPrefix(p string) bool { return p == "p" }
+func knownPrefix(p string) bool { return p == "p" || p == "xmlp" || p == "XMLq" }
 
 var exprTokens = []string{
 	"a", "(", ")", "/", "[", "]", "=", "'s'", "1", ",", ".", "..", "*", "-", "+", "|", "div", "and", "or", "mod",
@@ -65,7 +68,7 @@ var exprCorpus = [][]string{
 	{"p", ":", "a"}, {"/", "p", ":", "a", "[", "p", ":", "a", "=", "1", "]", "/", "p", ":", "*"}, {"concat", "(", "p", ":", "a", ",", "'s'", ")"},
 }
 
-var lrTokens = []string{"/", "a", "..", "[", "]", "=", "current", "(", ")", "p:a", "b", "q:a", "xmla", "*", ".", "1", "'x'", "!=", "|", "\u00a0", "bé", "a·b", "é"}
+var lrTokens = []string{"/", "a", "..", "[", "]", "=", "current", "(", ")", "p:a", "b", "q:a", "xmla", "*", ".", "1", "'x'", "!=", "|", "\u00a0", "bé", "a·b", "é", "xmlp:a", "p:xmla", "XMLq:a"}
 
 // leafref paths whose prefixed names are written as three tokens (mutation bases)
 var lrSplitCorpus = [][]string{{"..", "/", "p", ":", "a"}, {"/", "p", ":", "a", "/", "a", "[", "p", ":", "a", "=", "current", "(", ")", "/", "..", "/", "p", ":", "a", "]", "/", "a"}}
@@ -102,7 +105,7 @@ func classify(lang, src string) (int, string) {
 	if src == "" {
 		return int(patharg.MustReject), "empty"
 	}
-	v, why := patharg.Classify(src, map[string]bool{"p": true})
+	v, why := patharg.Classify(src, map[string]bool{"p": true, "xmlp": true, "XMLq": true})
 	return int(v), why
 }
 
@@ -394,7 +397,8 @@ func run(c *engine.Ctx) {
 	if c.Quick() {
 		r.sequences("expr", exprTokens, 3, "e3")
 		r.sequences("expr", exprStructural, 4, "es4")
-		r.sequences("leafref", lrTokens, 5, "l5")
+		r.sequences("leafref", lrTokens[:20], 5, "l5")
+		r.sequences("leafref", lrTokens, 4, "l4x")
 	} else {
 		r.sequences("expr", exprTokens, 4, "e4")
 		r.sequences("expr", exprStructural, 5, "es5")
